@@ -40,4 +40,5 @@ EXTRAS = [
     lambda rep, fb, tier: __import__("vf.rules.pyrules4", fromlist=["x"]).rule_py_depth_relative_wrap(rep),
     lambda rep, fb, tier: __import__("vf.rules.lints3", fromlist=["x"]).rule_regular_zeros_length(rep, fb),
     lambda rep, fb, tier: __import__("vf.rules.pyrules5", fromlist=["x"]).rule_py_sibling_arm_args(rep),
+    lambda rep, fb, tier: __import__("vf.rules.pyrules5", fromlist=["x"]).rule_py_shortcut_agrees(rep),
 ]
